@@ -275,8 +275,8 @@ def run_check(modname, tier, replay_path=None, jobs=None):
         it = map(_run_one, tasks)
         pool = None
     else:
-        # one forked child per task: a task's cases then share a process history that consists of that task alone
-        pool = ctx.Pool(jobs, initializer=_init_worker, initargs=(modname,), maxtasksperchild=1)
+        # long-lived workers (a fresh child per task costs the warm-up of the assembler and of gtirb 5x in wall time)
+        pool = ctx.Pool(jobs, initializer=_init_worker, initargs=(modname,))
         it = pool.imap_unordered(_run_one, tasks, chunksize=1)
     try:
         for out in it:
